@@ -19,6 +19,9 @@ func sourceProfile(prop string, checks ...string) *Profile {
 	for _, c := range checks {
 		p.Check[c] = true
 	}
+	if Tier == "thorough" {
+		p.MaxSteps = 60
+	}
 	p.Weights[opAppend] = 40
 	p.Weights[opJoinLive] = 12
 	p.Weights[opSend] = 8
